@@ -443,6 +443,14 @@ func (s *scnRun) log(e Event) {
 	s.events = append(s.events, e)
 	s.mu.Unlock()
 }
+func (s *scnRun) callbacksSoFar() int {
+	s.mu.Lock()
+	defer s.mu.Unlock()
+	if s.compact == nil {
+		return len(s.events)
+	}
+	return s.compact.Preps + s.compact.Execs + s.compact.Posts + s.compact.Fbs
+}
 func (s *scnRun) nextTok() int { t := s.tok; s.tok++; return t }
 
 // guard against runaway executions (only reachable when the library misroutes):
@@ -1325,6 +1333,25 @@ func runEngineScenarioFull(cfg EngineCfg, script Script, viaFlowRun bool, nest *
 				action, err = flyt.Run(ctx, s.nodes[cfg.Top], s.store)
 			}
 		}()
+		if s.compact != nil {
+			// a legitimately long run: it is left alone as long as it keeps calling back (a loaded machine makes it slow, not
+			// wrong); only a run that has stopped making progress is handed to the watchdog below
+			for waited := 0; waited < 60; waited++ {
+				before := s.callbacksSoFar()
+				select {
+				case <-finished:
+				case <-time.After(3 * time.Second):
+				}
+				select {
+				case <-finished:
+					waited = 60
+				default:
+					if s.callbacksSoFar() == before {
+						waited = 60
+					}
+				}
+			}
+		}
 		select {
 		case <-finished:
 		case <-time.After(6 * time.Second):
